@@ -14,7 +14,7 @@ the residual / update of the Newton iteration are, symbolically, those of the di
 The size of the residual reached, rounding and the number of iterations are numerical: NOT decided.
 """
 from ..interp import Interp, World, Interval, Obj, Sym, ThrowEx, explore, NOT_HANDLED
-from ..sir import pp, strip, walk, AnalysisBroken
+from ..sir import pp, strip, walk, calls, AnalysisBroken
 
 SPL = "fastscapelib::spl_eroder"
 UNITS = ["raster_queen", "profile", "trimesh"]
@@ -82,22 +82,49 @@ def writers_of(db, unit, cls, fields):
     return out
 
 
+def is_tolerance(fn, ref):
+    """does the expression denote the tolerance member (directly or through a never-reassigned local)?"""
+    from ..sir import resolve_alias
+    r = resolve_alias(fn, ref)
+    return r.get("k") == "member" and r.get("n") == "m_tolerance"
+
+
+def mentions_tolerance(fn, cond):
+    for n in walk(cond):
+        if n.get("k") == "member" and n.get("n") == "m_tolerance":
+            return True
+        if n.get("k") == "ref" and n.get("rk") in ("local", "slocal") and is_tolerance(fn, n):
+            return True
+    return False
+
+
 def convergence_tests(fn):
-    """(loop, if-stmt, condition) of every `break` guarded by a comparison with m_tolerance"""
+    """(host function, loop, if-stmt, condition) of every loop exit (break / return) guarded by a
+    comparison with the tolerance, in fn or in the helpers of the same class it calls"""
     out = []
-    for loop in walk(fn.body):
-        if loop.get("k") not in ("while", "do", "for"):
-            continue
-        for n in walk(loop.get("body")):
-            if n.get("k") == "if" and "m_tolerance" in pp(n["c"]) and \
-                    any(x.get("k") == "break" for x in walk(n.get("then"))):
-                if not any(n is o[1] for o in out):
-                    out.append((loop, n, n["c"]))
+    hosts, seen = [fn], {fn.key}
+    for depth in range(2):
+        for h in list(hosts):
+            for c in calls(h.body):
+                cal = h.callee(c)
+                if cal is not None and cal.cls == fn.cls and cal.key not in seen and cal.body is not None:
+                    seen.add(cal.key)
+                    hosts.append(cal)
+    for h in hosts:
+        for loop in walk(h.body):
+            if loop.get("k") not in ("while", "do", "for"):
+                continue
+            for n in walk(loop.get("body")):
+                if n.get("k") == "if" and mentions_tolerance(h, n["c"]) and \
+                        any(x.get("k") in ("break", "return") for x in walk(n.get("then"))):
+                    if not any(n is o[2] for o in out):
+                        out.append((h, loop, n, n["c"]))
     return out
 
 
 def eval_guard(fn, cond, residual):
-    """evaluate the exit condition with every local variable it mentions bound to `residual`"""
+    """evaluate the exit condition with every local variable it mentions bound to `residual`
+    (aliases of the tolerance are bound to the tolerance)"""
     from ..interp import Frame, Cell
     outs = set()
 
@@ -106,7 +133,7 @@ def eval_guard(fn, cond, residual):
         fr = Frame(fn, Obj(SPL, {"m_tolerance": 1e-3}))
         for n in walk(cond):
             if n.get("k") == "ref" and n.get("rk") in ("local", "param") and n.get("d") is not None:
-                fr.vars[n["d"]] = Cell(residual, n["n"])
+                fr.vars[n["d"]] = Cell(1e-3 if is_tolerance(fn, n) else residual, n["n"])
         return it, it.truth(it.eval(cond, fr), cond)
     for made, res in explore(run):
         outs.add(bool(res))
@@ -159,20 +186,21 @@ def run(db, chk):
         tests = convergence_tests(fn)
         if not tests:
             raise AnalysisBroken("C13-N1: no tolerance-guarded exit found in spl_eroder::erode (%s)" % fn.unit.name)
-        for loop, stmt, cond in tests:
-            variables = {n["n"] for n in walk(cond) if n.get("k") == "ref" and n.get("rk") in ("local", "param")}
+        for host, loop, stmt, cond in tests:
+            variables = {n["n"] for n in walk(cond) if n.get("k") == "ref" and n.get("rk") in ("local", "param")
+                         and not is_tolerance(host, n)}
             if len(variables) != 1:
                 raise AnalysisBroken("C13-N1: exit test %s mentions %d local variables" % (pp(cond), len(variables)))
             res = {}
             for label, iv in (("residual << -tolerance", Interval(-1e300, -1.0)),
                               ("|residual| < tolerance", Interval(-4e-4, 4e-4)),
                               ("residual >> tolerance", Interval(1.0, 1e300))):
-                res[label] = eval_guard(fn, cond, iv)
+                res[label] = eval_guard(host, cond, iv)
                 n_sc += 1
             ok = res["residual << -tolerance"] == {False} and res["|residual| < tolerance"] == {True} \
                 and res["residual >> tolerance"] == {False}
             chk.ob("C13-N1", "[%s] Newton exit test `%s`: stops for %s" % (
-                fn.unit.name, pp(cond), {k: sorted(v) for k, v in res.items()}), ok, where=fn.loc(stmt),
+                fn.unit.name, pp(cond), {k: sorted(v) for k, v in res.items()}), ok, where=host.loc(stmt),
                 function=fn.bn, construct="newton-exit(%s)" % sorted(variables)[0],
                 detail="" if ok else "the iteration stops as soon as the residual is below +tolerance: for a "
                 "concave equation (slope exponent < 1) the first Newton step overshoots to a large "
@@ -253,6 +281,15 @@ class EqWorld(World):
             if isinstance(o, Sym) and o.kind == "erosion":
                 if name == "fill":
                     return None
+                if name in ("begin", "end", "cbegin", "cend"):
+                    from ..interp import WholeRange
+
+                    class _Ero:
+                        def fill_all(self_inner, v):
+                            return None
+                    if not hasattr(self, "_ero_range"):
+                        self._ero_range = _Ero()
+                    return WholeRange(self._ero_range, name in ("end", "cend"))
                 i = it.rv(it.eval(args[0], frame))
                 w = self
 
